@@ -286,6 +286,8 @@ def driver_check(prop, tier, scale, cfg, ev):
     sets = []
     for kv in cfg.get("set", []):
         sets += ["--set", kv]
+    for k in cfg.get("excludes", []):
+        kargs = kargs + ["--exclude", k]
     common = kargs + sets + ["--tier", tier]
     violation = None
 
@@ -424,6 +426,8 @@ def replay(prop, casefile):
     sets = []
     for kv in cfg.get("set", []):
         sets += ["--set", kv]
+    for k in cfg.get("excludes", []):
+        sets += ["--exclude", k]
     r = subprocess.run([exe, "--mode", "replay", "--file", casefile, "--times", "3"] + known_args(prop) + sets,
                        env=child_env(cfg["variant"]))
     if r.returncode == 1:
